@@ -152,9 +152,12 @@ func c11Build(ents []c11Ent, parent []int, perm int) *synthDB {
 		art := &db.BuildArtifact{}
 		if e.Art != 0 {
 			meta.LastBuild = c11T0.Add(time.Duration(100+10*e.Time) * time.Hour)
-			if e.CfgNew == 1 {
+			switch e.CfgNew {
+			case 1:
 				meta.LastConfigUpdate = meta.LastBuild.Add(time.Hour)
-			} else {
+			case 2: // config and artifact carry the same time stamp: the config is not newer
+				meta.LastConfigUpdate = meta.LastBuild
+			default:
 				meta.LastConfigUpdate = meta.LastBuild.Add(-time.Hour)
 			}
 		} else {
@@ -383,7 +386,10 @@ func c11AllEnts(f func(e c11Ent)) {
 				if !hasCert && exp&1 != 0 {
 					continue // no certificate that could be expired
 				}
-				for cn := 0; cn < 2; cn++ {
+				for cn := 0; cn < 3; cn++ {
+					if cn == 2 && art == 0 {
+						continue // no artifact to tie with
+					}
 					f(c11Ent{Art: art, Hash: hash, Expired: exp, CfgNew: cn})
 					if hasCert && exp&1 == 0 {
 						f(c11Ent{Art: art, Hash: hash, Expired: exp, CfgNew: cn, NotYet: true})
@@ -801,10 +807,13 @@ func c11Files(x *engine.Ctx, c *c11Case) {
 		return
 	}
 	var n int64
-	for rcn := 0; rcn < 2; rcn++ {
-		for scn := 0; scn < 2; scn++ {
+	for rcn := 0; rcn < 3; rcn++ {
+		for scn := 0; scn < 3; scn++ {
 			for rel := 0; rel < 3; rel++ {
 				for strat := 0; strat < 32; strat++ {
+					if (rcn == 2 && c.RootArt == 0) || (scn == 2 && c.SubArt == 0) {
+						continue // no artifact file to share a time stamp with
+					}
 					if x.Tier != "thorough" && (rcn+scn > 0) && (rel != 1 || strat&4 == 0 || strat&^13 != 0) {
 						continue // quick: config-newer variants only with the strategies that read them
 					}
@@ -842,6 +851,8 @@ func c11FilesOne(x *engine.Ctx, base *c11Base, ents []c11Ent, strat int) {
 		cfgTick := artTick - 1
 		if e.CfgNew == 1 {
 			cfgTick = artTick + 1
+		} else if e.CfgNew == 2 {
+			cfgTick = artTick // same time stamp: the config is not newer than the artifact
 		}
 		w.PutAt(fmt.Sprintf("e%d.yaml", i), cfgs[i], cfgTick)
 		if v := c11Variant(pems[i], e.Art, e.Hash, ""); v != nil {
@@ -965,7 +976,7 @@ func init() {
 	register(&engine.Check{
 		ID:          "C11",
 		Level:       "model_checking",
-		Rule:        "(1) db.PlanBulkUpdate on a synthetic db.Database: for an issuer/subject pair the full product of per-entity states (artifact {absent, cert+key, cert+CSR, key only, cert only} x stored hash {none, equal, different} x (certificate expired / valid / not yet valid) x (configured end before the certificate's end / after it but still past / future / far future) x config older/newer than artifact) for both entities x issuer-vs-subject artifact time {<,=,>} x all 32 strategies; for every rooted forest on <=3 (quick) / <=4 (thorough) entities a 6-letter per-entity alphabet x all strict artifact-time orders + all-equal x 32 strategies (x 6 return-order permutations of roots/subscribers for n<=3). (2) the same pair states realised as files (hash line, PEM blocks, mtimes) on FsDb+simfs for all 225 artifact/hash combinations x config age x time relation x 32 strategies, followed by BulkUpdate (issuer written first, subject verifies under the issuer written in this run, nothing unplanned written). (3) the CLI binary with all 32 explicit flag combinations on one world per reason, and all 243 spellings of the five flags (unmentioned = default, given, given as =false; short and long forms) on three worlds, which pins the documented defaults (-m and -c on). (4) a settled chain whose root or intermediate is edited so that it is due but cannot be signed (misfitting signature algorithm / uncompilable extension) x 4 strategies: the run fails and no file at or below that entity changes. Oracle: the decision table transcribed from the statement with explicit don't-care cells. states = distinct abstract worlds, transitions = plans computed",
+		Rule:        "(1) db.PlanBulkUpdate on a synthetic db.Database: for an issuer/subject pair the full product of per-entity states (artifact {absent, cert+key, cert+CSR, key only, cert only} x stored hash {none, equal, different} x (certificate expired / valid / not yet valid) x (configured end before the certificate's end / after it but still past / future / far future) x config older / newer / same time stamp as the artifact) for both entities x issuer-vs-subject artifact time {<,=,>} x all 32 strategies; for every rooted forest on <=3 (quick) / <=4 (thorough) entities a 6-letter per-entity alphabet x all strict artifact-time orders + all-equal x 32 strategies (x 6 return-order permutations of roots/subscribers for n<=3). (2) the same pair states realised as files (hash line, PEM blocks, mtimes) on FsDb+simfs for all 225 artifact/hash combinations x config age x time relation x 32 strategies, followed by BulkUpdate (issuer written first, subject verifies under the issuer written in this run, nothing unplanned written). (3) the CLI binary with all 32 explicit flag combinations on one world per reason, and all 243 spellings of the five flags (unmentioned = default, given, given as =false; short and long forms) on three worlds, which pins the documented defaults (-m and -c on). (4) a settled chain whose root or intermediate is edited so that it is due but cannot be signed (misfitting signature algorithm / uncompilable extension) x 4 strategies: the run fails and no file at or below that entity changes. Oracle: the decision table transcribed from the statement with explicit don't-care cells. states = distinct abstract worlds, transitions = plans computed",
 		Bound:       map[string]string{"forest": "quick<=3 thorough<=4", "file layer": "2-entity chain"},
 		Assumptions: []string{"comparisons 'newer than its artifact' are not decided when the entity has no artifact file (don't-care)", "expiry is explored with certificates decades away from the wall clock"},
 		Budget:      budgets(quickBudget, thoroughBudget),
